@@ -61,7 +61,9 @@ def sequence(rng, exact):
             p = ["SP", str(rng.below(7)), exact_f(rng), exact_f(rng)]
             for _ in range(rng.range(1, 4)):
                 v = rng.choice(R.NONARC)
-                p += [v] + [exact_f(rng) for _ in range(G.VERBS[v])]
+                # sometimes a run of the same operation that has to be split over several opcodes
+                for _ in range(rng.choice([1, 1, 1, 1, 17, 33, 40]) if v not in "Yy" else 1):
+                    p += [v] + [exact_f(rng) for _ in range(G.VERBS[v])]
             t += p + ["Z"]
     return t
 
